@@ -61,7 +61,10 @@ for d in sorted(glob.glob(os.path.join(V,"benign/*/meta.json"))):
             cells.append("0" if r["exit"]=="0" else "**%s**"%r["exit"]); bad += r["exit"]!="0"
     lines.append("| %s | %s | %s | %s |" % (m["id"], m["property"], m["what_changed"].replace("|","\\|"), " | ".join(cells)))
 lines.append("")
-lines.append("Exit codes of the six quick checks on each of the %d legitimate changes (0 = no alarm): %d non-zero. Cells marked † (%d) are from the full 6 x %d regression run before the extensions of rounds 8-9 (`benign-quick.prev.tsv`); after those extensions the owning check and the three checks whose oracles or operations changed (C06, C17, C18) were re-run on every change, all with the shipped-configuration pass." % (nb,bad,old,nb))
+if old==0:
+    lines.append("Exit codes of the six quick checks on each of the %d legitimate changes (0 = no alarm): %d non-zero. All %d runs are on the final machinery (after the extensions of rounds 8-9, each check with its shipped-configuration pass)." % (nb,bad,6*nb))
+else:
+    lines.append("Exit codes of the six quick checks on each of the %d legitimate changes (0 = no alarm): %d non-zero. Cells marked † (%d) are from the full 6 x %d regression run before the extensions of rounds 8-9 (`benign-quick.prev.tsv`); after those extensions the owning check and the three checks whose oracles or operations changed (C06, C17, C18) were re-run on every change, all with the shipped-configuration pass." % (nb,bad,old,nb))
 BENIGN="\n".join(lines)
 # ---- budgets from evidence (whatever tier was last run) + results/thorough.log if present
 lines=["","| check | tier of the committed evidence | scenarios | simulated ticks | distinct situations | wall s |","|---|---|---|---|---|---|"]
